@@ -322,6 +322,7 @@ class SchedLifoQueue:
         if s is not None:
             s.events.append(("put", s.cur, id(self), item))
             if s.queue_hook is not None:
+                s.current_queue = self
                 s.queue_hook("put", s.cur, item)
 
     def get(self, block=True, timeout=None):
@@ -336,6 +337,9 @@ class SchedLifoQueue:
                 raise queue.Empty
             if s is None or s._me() is None:
                 raise queue.Empty
+            s.events.append(("wait", s.cur, id(self), None))
+            if s.queue_hook is not None:
+                s.queue_hook("wait", s.cur, self)
             ok = s.block_until(lambda: bool(self.queue), ("q.get-wait", id(self)), timed=timeout is not None)
             if not ok:
                 raise queue.Empty
@@ -343,6 +347,7 @@ class SchedLifoQueue:
         if s is not None:
             s.events.append(("get", s.cur, id(self), item))
             if s.queue_hook is not None:
+                s.current_queue = self
                 s.queue_hook("get", s.cur, item)
         return item
 
